@@ -597,11 +597,62 @@ theorem attrTableLoop_spec (element : Option AName) (attrs : List AttrShape) (hs
           refine Good.bind (deref_spec q s2 hq2) ?_
           intro _ s2' e2'; have e2'' := e2'.symm; subst e2''
           have hfq : s1.next < q ∧ q ≤ s2.next := hqf q rfl
+          obtain ⟨ownT, ownF, dTF⟩ := Owns.append_iff.1 ownTF
+          have hfA' : ∀ i ∈ att.owned, s.next < i ∧ i ≤ s1.next := fun i hi => hfA i (by simpa [ownedAttrOpt] using hi)
+          have eF : (entries ++ [att]).flatMap AAttr.owned = entries.flatMap AAttr.owned ++ att.owned := by
+            simp [List.flatMap_append]
+          have c2' : Clean s1 s2 tbl.toList [q] := by simpa using c2
           have own2 : Owns s2 (ownedNameOpt element ++ ((some q).toList ++ (entries ++ [att]).flatMap AAttr.owned)) := by
-            sorry
+            rw [eF]
+            simp only [Option.toList, List.singleton_append]
+            have oE : Owns s2 (ownedNameOpt element) :=
+              c2'.keeps ownE1 (fun i hi hm => dE i hi (List.mem_append_left _ hm))
+            have oF : Owns s2 (entries.flatMap AAttr.owned) :=
+              c2'.keeps (c1.keeps ownF (by simp)) (fun i hi hm => dTF i hm hi)
+            have oA : Owns s2 att.owned := c2'.keeps ownA1 (by
+              intro i hi hm
+              have := hfA' i hi
+              have := hold i (List.mem_append_right _ (List.mem_append_left _ hm)); omega)
+            refine Owns.append_iff.2 ⟨oE, Owns.cons_iff.2 ⟨hq2, ?_, Owns.append_iff.2 ⟨oF, oA, ?_⟩⟩, ?_⟩
+            · intro hm
+              rcases List.mem_append.1 hm with hm | hm
+              · have := hold q (List.mem_append_right _ (List.mem_append_right _ hm)); omega
+              · have := hfA' q hm; omega
+            · intro i hi hm
+              have := hold i (List.mem_append_right _ (List.mem_append_right _ hi)); have := hfA' i hm; omega
+            · intro i hi hm
+              have := hold i (List.mem_append_left _ hi)
+              rcases List.mem_cons.1 hm with hm | hm
+              · omega
+              · rcases List.mem_append.1 hm with hm | hm
+                · exact dE i hi (List.mem_append_right _ hm)
+                · have := hfA' i hm; omega
           refine (ih (fun x hx => hshape x (by simp [hx])) (some q) (entries ++ [att]) s2 c2.wf own2 (by simp)).mono ?_
           intro r s3 ⟨c3, e3, h3⟩
-          sorry
+          have hn3 := c3.next; have hh3 := c3.hits
+          rw [eF] at c3
+          refine ⟨⟨?_, ?_, c3.nodup, by rw [c3.sched, c2.sched, c1.sched], by omega, by omega, c3.wf⟩, e3, ?_⟩
+          · intro i
+            rw [c3.live, c2'.live, c1.live]
+            have a1 := hfA' i; have a2 := hold i; have a3 := dE i; have a4 := wf i
+            simp only [ownedAttrOpt, Option.toList, List.mem_append, List.mem_cons, List.not_mem_nil, not_false_eq_true, and_true, or_false] at *
+            generalize (if r.1 = OK then ownedNameOpt element ++ (r.2.1.toList ++ List.flatMap AAttr.owned r.2.2) else []) = R at *
+            clear ih c1 c2 c2' c3 ownE ownE1 ownTF ownTF1 ownA1 hfA hfA' hold own dE hT1 own2 ownT ownF dTF eF e3 h3
+            grind
+          · intro i hi
+            have a0 := c3.fresh i hi
+            have a1 := hfA' i
+            simp only [Option.toList, List.mem_append, List.mem_cons, List.not_mem_nil, or_false] at *
+            generalize (if r.1 = OK then ownedNameOpt element ++ (r.2.1.toList ++ List.flatMap AAttr.owned r.2.2) else []) = R at *
+            clear ih c1 c2 c2' c3 ownE ownE1 ownTF ownTF1 ownA1 hfA hfA' hold own dE hT1 own2 ownT ownF dTF eF e3 h3
+            grind
+          · intro hh
+            by_cases hA : s2.hits < s3.hits
+            · exact h3 hA
+            · exfalso
+              have b1 := h1; have b2 := h2
+              simp at b1 b2
+              omega
     · have hb : (ret != OK) = true := by simpa using hret
       simp only [hb, if_true]
       have := e1 hret; subst this
@@ -616,5 +667,139 @@ theorem attrTableLoop_spec (element : Option AName) (attrs : List AttrShape) (hs
       rw [c3.live, c2.live, c1.live]
       simp only [ownedAttrOpt, List.mem_append, List.not_mem_nil, not_false_eq_true, and_true, or_false]
       grind
+
+theorem parseStag_spec (t : TagShape) (ht : t.wf) (s : Ledger) (wf : s.WF) :
+    Good (parseStag t) s (fun r s' =>
+      Clean s s' [] (ownedNameOpt r.2) ∧ (r.1 ≠ OK → r.2 = none) ∧ (r.1 = OK → r.2.isSome) ∧
+      (s.hits < s'.hits → r.1 ≠ OK)) := by
+  cases t with
+  | err c =>
+    simp only [parseStag, pure_eq, good_ret, ownedNameOpt]
+    exact ⟨Clean.rfl wf, by simp, fun h => (ht h).elim, by simp⟩
+  | token row =>
+    simp only [parseStag, bind_eq, pure_eq]
+    refine Good.bind (nameCreateToken_spec row s wf) ?_
+    intro name s1 ⟨c1, h1⟩
+    cases name with
+    | none => simp only [good_ret]; exact ⟨c1, by simp, by simp [ENOMEM, OK], by simp [ENOMEM, OK]⟩
+    | some n => simp only [good_ret]; exact ⟨c1, by simp, by simp, fun hh => by have := h1 hh; simp at this⟩
+  | unknown =>
+    simp only [parseStag, bind_eq, pure_eq]
+    refine Good.bind (nameCreateLiteral_spec (some unknownName) s wf) ?_
+    intro name s1 ⟨c1, h1⟩
+    cases name with
+    | none => simp only [good_ret]; exact ⟨c1, by simp, by simp [ENOMEM, OK], by simp [ENOMEM, OK]⟩
+    | some n => simp only [good_ret]; exact ⟨c1, by simp, by simp, fun hh => by have := h1 hh; simp at this⟩
+  | literal nm =>
+    simp only [parseStag, bind_eq, pure_eq]
+    refine Good.bind (parseLiteralRef_spec nm s wf) ?_
+    intro r s1 ⟨c1, e1, k1, h1⟩
+    obtain ⟨ret, lit⟩ := r
+    simp only at c1 e1 k1 h1 ⊢
+    by_cases hret : ret = OK
+    · subst hret
+      simp only [bne_self_eq_false, Bool.false_eq_true, if_false]
+      cases lit with
+      | none => simp at k1
+      | some lit =>
+        simp only
+        have own1 : Owns s1 lit.owned := by simpa [ownedBufOpt] using c1.owns
+        refine (literalName_spec (fun e => ((if e.isNone then ENOMEM else OK), e)) lit s1 c1.wf own1).mono ?_
+        intro r s2 ⟨name, er, c2, h2⟩
+        subst er
+        simp only
+        have hn1 := c1.next; have hn2 := c2.next; have hh1' := c1.hits; have hh2 := c2.hits
+        have hh1 : ¬ s.hits < s1.hits := fun hh => h1 hh rfl
+        refine ⟨⟨?_, ?_, c2.nodup, by rw [c2.sched, c1.sched], by omega, by omega, c2.wf⟩, ?_, ?_, ?_⟩
+        · intro i
+          rw [c2.live, c1.live]
+          have a1 := wf i; have a2 := c1.fresh i
+          simp only [ownedBufOpt, List.not_mem_nil, not_false_eq_true, and_true, or_false, false_or] at *
+          grind
+        · intro i hi
+          have a1 := c2.fresh i hi; have a2 := c1.fresh i
+          simp only [ownedBufOpt, List.not_mem_nil, false_or] at *
+          grind
+        · intro hne; cases name <;> simp_all [ENOMEM, OK]
+        · intro he; cases name <;> simp_all [ENOMEM, OK]
+        · intro hh; have := h2 (by omega); subst this; simp [ENOMEM, OK]
+    · have hb : (ret != OK) = true := by simpa using hret
+      simp only [hb, if_true, good_ret, ownedNameOpt]
+      have hl := e1 hret; subst hl
+      exact ⟨by simpa [ownedBufOpt] using c1, by simp, fun h => (hret h).elim, fun _ => hret⟩
+
+/-- `parse_element` (no content): whatever the attributes are and whichever requests fail, nothing
+    stays allocated, nothing is used after free, and a delivered failure is reported. -/
+theorem parseElement_spec (t : TagShape) (ht : t.wf) (attrs : List AttrShape) (hshape : ∀ a ∈ attrs, a.start.wf)
+    (s : Ledger) (wf : s.WF) :
+    Good (parseElement t attrs) s (fun ret s' => Clean s s' [] [] ∧ (s.hits < s'.hits → ret ≠ OK)) := by
+  unfold parseElement
+  simp only [bind_eq, pure_eq]
+  refine Good.bind (parseStag_spec t ht s wf) ?_
+  intro r s1 ⟨c1, e1, k1, h1⟩
+  obtain ⟨ret, element⟩ := r
+  simp only at c1 e1 k1 h1 ⊢
+  have hn1 := c1.next; have hh1' := c1.hits
+  by_cases hret : ret = OK
+  · subst hret
+    simp only [bne_self_eq_false, Bool.false_eq_true, if_false]
+    obtain ⟨e, he⟩ : ∃ e, element = some e := by
+      cases element with
+      | none => simp at k1
+      | some e => exact ⟨e, rfl⟩
+    subst he
+    have ownE1 : Owns s1 (ownedNameOpt (some e)) := c1.owns
+    have hel : e.hdr ∈ s1.live := ownE1.2 _ (by simp [ownedNameOpt, AName.owned])
+    simp only [Option.map_some]
+    refine Good.bind (deref_spec e.hdr s1 hel) ?_
+    intro _ s1' e1'; have e1'' := e1'.symm; subst e1''
+    have own1 : Owns s1 (ownedNameOpt (some e) ++ ((none : Ptr).toList ++ ([] : List AAttr).flatMap AAttr.owned)) := by
+      simpa using ownE1
+    refine Good.bind (attrTableLoop_spec (some e) attrs hshape none [] s1 c1.wf own1 (by simp)) ?_
+    intro r2 s2 ⟨c2, e2, h2⟩
+    obtain ⟨ret2, tbl, entries⟩ := r2
+    simp only at c2 e2 h2 ⊢
+    have hn2 := c2.next; have hh2 := c2.hits
+    have hnil : ((none : Ptr).toList ++ ([] : List AAttr).flatMap AAttr.owned) = [] := rfl
+    rw [hnil, List.append_nil] at c2
+    by_cases hret2 : ret2 = OK
+    · subst hret2
+      simp only [bne_self_eq_false, Bool.false_eq_true, if_false, if_true] at c2 ⊢
+      have own2 : Owns s2 (ownedNameOpt (some e) ++ (tbl.toList ++ entries.flatMap AAttr.owned)) := c2.owns
+      obtain ⟨ownE2, ownTF2, dE2⟩ := Owns.append_iff.1 own2
+      refine Good.bind (freeAttrsTable_spec tbl entries s2 c2.wf ownTF2 e2) ?_
+      intro _ s3 ⟨c3, h3, n3⟩
+      have ownE3 : Owns s3 (ownedNameOpt (some e)) := c3.keeps ownE2 dE2
+      refine Good.bind (nameDestroy_spec (some e) s3 c3.wf ownE3) ?_
+      intro _ s4 ⟨c4, h4, n4⟩
+      simp only [good_ret]
+      refine ⟨⟨?_, by simp, by simp, by rw [c4.sched, c3.sched, c2.sched, c1.sched], by omega, by omega, c4.wf⟩, ?_⟩
+      · intro i
+        rw [c4.live, c3.live, c2.live, c1.live]
+        have a1 := c1.fresh i; have a2 := wf i; have a3 := dE2 i; have a4 := c2.fresh i
+        simp only [List.mem_append, List.not_mem_nil, not_false_eq_true, and_true, or_false, false_or] at *
+        generalize ownedNameOpt (some e) = E at *
+        generalize tbl.toList = T at *
+        generalize List.flatMap AAttr.owned entries = F at *
+        clear c1 c2 c3 c4 own1 own2 ownE1 ownE2 ownE3 ownTF2 dE2 hel
+        grind
+      · intro hh
+        exfalso
+        have b1 := h1; have b2 := h2
+        simp at b1 b2
+        omega
+    · have hb : (ret2 != OK) = true := by simpa using hret2
+      simp only [hb, if_true, good_ret]
+      simp only [hret2, if_false] at c2
+      refine ⟨⟨?_, by simp, by simp, by rw [c2.sched, c1.sched], by omega, by omega, c2.wf⟩, fun _ => hret2⟩
+      intro i
+      rw [c2.live, c1.live]
+      have a1 := c1.fresh i; have a2 := wf i
+      simp only [List.not_mem_nil, not_false_eq_true, and_true, or_false, false_or] at *
+      grind
+  · have hb : (ret != OK) = true := by simpa using hret
+    simp only [hb, if_true, good_ret]
+    have := e1 hret; subst this
+    exact ⟨by simpa [ownedNameOpt] using c1, fun _ => hret⟩
 
 end Wbxml.Model.Alloc
